@@ -13493,3 +13493,16 @@ a=mid:0
         assert!(!extmap_value(crate::sdp::ABS_SEND_TIME_URI).starts_with("3 "));
     }
 }
+
+#[cfg(rustrtc_verif)]
+impl PeerConnection {
+    /// Read-only view of signaling-related state that has no public accessor (C09): the next
+    /// numeric MID to allocate, the DTLS role and the cached remote DTLS fingerprint.
+    pub fn verif_signaling_hidden(&self) -> (u16, Option<bool>, Option<String>) {
+        (
+            self.inner.next_mid.load(Ordering::SeqCst),
+            *self.inner.dtls_role.borrow(),
+            self.inner.remote_dtls_fingerprint.lock().clone(),
+        )
+    }
+}
